@@ -218,10 +218,10 @@ def dist_fn(dist, c, a, b):
 
 
 def run(ctx):
-    n = 1500 if ctx.tier == "quick" else 30000
+    n = ctx.n(1500, 30000)
     stats = histprop.run_history_property(ctx, "C10", gen_case, n, RULE, nontrivial, extra_batch=extra_batch, dist_fn=dist_fn)
     rng = core.Rng(ctx.seed + 1)
-    nf = 200 if ctx.tier == "quick" else 4000
+    nf = ctx.n(200, 4000)
     cases = [gen_case(rng.fork("fc%d" % i)) for i in range(nf)]
     done = filepass.run_layers_through_files(ctx, [filepass.layers_of_history(c) for c in cases], rng, "C10", "c10-disagreement")
     stats["distribution"]["through_layer_files"] = done
